@@ -145,7 +145,7 @@ def run(chk, replay=None):
     quick = chk.tier == 'quick'
     n_numeric = 3 if quick else 25          # numeric matrices per representation
     n_points = 3 if quick else 12           # sample points per generic-symbolic representation
-    n_chain = 12 if quick else 150
+    n_chain = 16 if quick else 160
     chk.coverage['rule'] = ('each case = (source representation, matrix, Z0, target representation or derived attribute); '
                             'matrices: generic symbolic entries sampled at random rational points + numeric rational matrices '
                             '(incl. a degenerate stream with zero entries); non-trivial = all pivots finite on both sides and the '
@@ -353,17 +353,18 @@ def run(chk, replay=None):
         ms = [[rand_entry(rng) for _ in range(4)] for _ in range(n)]
         Ms = [L.make(x, m) for m in ms]
         R = Ms[0]
+        meth = 'chain' if (k // 4) % 2 == 0 else 'cascade'      # both spellings of the connection
         for M2 in Ms[1:]:
-            R = R.chain(M2)
+            R = getattr(R, meth)(M2)
         got = L.mat(R, {})
         mod = ms[0]
         for m2 in ms[1:]:
-            r = drv.ask1('tp.chain %s_chain %s %s' % (x, ' '.join(fstr(v) for v in mod), ' '.join(fstr(v) for v in m2)))
+            r = drv.ask1('tp.chain %s_%s %s %s' % (x, meth, ' '.join(fstr(v) for v in mod), ' '.join(fstr(v) for v in m2)))
             mod = None if r in ('unknown-def', 'bad-op') else [Fraction(t) for t in r.split()]
             if mod is None:
                 break
         chk.case(('chain', x, tuple(tuple(m) for m in ms)), True)
-        chk.count('chain', '%s x%d' % (x, n))
+        chk.count('chain', '%s.%s x%d' % (x, meth, n))
         if mod is not None:
             chk.coverage['correspondence']['compared'] += 1
             if mod != got:
@@ -395,11 +396,11 @@ def run(chk, replay=None):
             whole = (V1, I1, port_out[0], port_out[1])
             if not spec_rel(x, got, Z0, whole):
                 counterexamples += 1
-                chk.counterexample({'kind': 'chain', 'class': x},
-                                   {'input': {'class': x + 'Matrix', 'stages': [[fstr(v) for v in m] for m in ms]},
+                chk.counterexample({'kind': 'chain', 'class': x, 'method': meth},
+                                   {'input': {'class': x + 'Matrix', 'method': meth, 'stages': [[fstr(v) for v in m] for m in ms]},
                                     'lcapy': [fstr(v) for v in got], 'spec': 'cascaded port must satisfy the chained matrix',
                                     'port': [fstr(v) for v in whole]},
-                                   '%sMatrix.chain does not multiply in signal order' % x)
+                                   '%sMatrix.%s does not multiply in signal order' % (x, meth))
 
     # ---- 4. classification of broken obligations / correspondence with no counterexample
     chk.coverage['correspondence']['samples_of_disagreement'] = disagreements[:5]
